@@ -25,7 +25,7 @@ RULE = ("E2: breadth-first search over operation histories of real Bec2File obje
         "one key == object key == key that verifies the directory MACs and decrypts the encrypted configuration component; unopened blocks must be byte-identical to what was read; every New "
         "consumes exactly one 16-byte draw which becomes the key; every packed ECC block consumes fresh entropy and its ephemeral point is new "
         "in the history. E1 ('splice', ...): every ordered pair of block kinds x key pairs K1 != K2 (4 key classes, plus keys differing in each single bit) spliced into one header (body MACed with "
-        "either): rejected with both decryptors, accepted with one decryptor iff the body matches that block's key.")
+        "either): rejected with both decryptors, accepted with one decryptor iff the body matches that block's key; ('multisplice', ...) headers of 2..3 blocks INCLUDING several blocks of the same tag (two ECC blocks for different selectors, two customer-key blocks, ...) x every assignment of two keys: accepted exactly when all blocks agree.")
 ASSUMPTIONS = [
     "canonical-state merging assumes operations depend only on the hashed fields plus the randomness stream; hidden library-global state is still "
     "caught because every check is phrased per transition (draws consumed by this operation, points new in this history)",
@@ -309,6 +309,19 @@ def splice_cases(ctx):
             if a != b:
                 for bit in range(128):
                     yield ("splice", a, b, 1, 100 + bit, bit % 2, "both")
+    # headers of 2..3 blocks over {customer-key, ECC sel 0, ECC sel 2, update} INCLUDING several blocks of the same tag,
+    # with every assignment of two keys to the blocks; all decryptors supplied: accepted exactly when all blocks agree
+    specs = ("cust", "ecc0", "ecc2", "upd")
+    from itertools import product as _product
+    for n in (2, 3):
+        for kinds_ in _product(specs, repeat=n):
+            for pattern in _product((0, 1), repeat=n):
+                if pattern[0] == 1:
+                    continue              # symmetric
+                for body in (0, 1):
+                    if len(set(kinds_)) == n and n == 2:
+                        continue          # distinct pairs are covered above
+                    yield ("multisplice", kinds_, pattern, body)
     # control: same key in both blocks must be accepted with every decryptor set
     for a in kinds:
         for b in kinds:
@@ -326,8 +339,44 @@ def wrap(kind, key):
     return 3, b"\x00" + EC.ecies_wrap(EC.P256, pub, 0x1234567 + key[0], key)
 
 
+def wrap2(spec, key, salt):
+    if spec == "cust":
+        return 1, AB.container_wrap(CKEY, AB.cust_payload(key))
+    if spec == "upd":
+        return 2, AB.container_wrap(AB.code_key(CODE), AB.update_payload(key, 0x21))
+    sel = int(spec[3])
+    pub = EC.P256.mul(SCAL[sel], EC.P256.g)
+    return 3, bytes([sel]) + EC.ecies_wrap(EC.P256, pub, 0x1234567 + salt, key)
+
+
+def run_multisplice(ctx, case):
+    _, kinds_, pattern, body = case
+    keys = splice_keys(ctx)[:2]
+    blocks = [wrap2(sp, keys[pi], i) for i, (sp, pi) in enumerate(zip(kinds_, pattern))]
+    comps = FX.model_components(ctx, "one")
+    hdr = AB.header(blocks)
+    binary = hdr + L.serialise(comps, len(hdr), keys[body])
+    D = decryptor("cust") + decryptor("ecc") + decryptor("upd")
+    try:
+        r = Bec2File.read_file(io.StringIO(L.render_text([], binary)), D)
+        accepted = True
+    except Exception as e:
+        r = e
+        accepted = False
+    o = Outcome("accepted" if accepted else "rejected", True)
+    agree = len(set(pattern)) == 1
+    if not agree and accepted:
+        o.viol("splice|disagreeing-accepted|same-tag" if len(set(kinds_)) < len(kinds_) else "splice|disagreeing-accepted",
+               "header with blocks %r wrapping keys %r (all decryptors supplied) was accepted" % (kinds_, pattern))
+    if agree and pattern[0] == body and not accepted:
+        o.viol("splice|control-rejected", "header with blocks %r that all wrap the body's key was rejected: %r" % (kinds_, r))
+    return o
+
+
 def run_case(ctx, case):
     consts(ctx)
+    if case[0] == "multisplice":
+        return run_multisplice(ctx, case)
     if case[0] == "hist":
         # replay of a BFS history
         st = St()
